@@ -57,8 +57,9 @@ type Batch struct {
 	ProducerEpoch        int16
 	BaseSequence         int32
 	Records              []Record
-	// RelativeInner (v1 compressed wrapper only): inner messages carried relative
-	// offsets 0..n-1 (the KIP-31 layout); false: they carried absolute offsets.
+	// RelativeInner (v1 compressed wrapper only): inner messages carry offsets
+	// relative to the first inner message (the KIP-31 layout: 0..n-1, or with
+	// gaps after compaction); false: they carry absolute offsets.
 	RelativeInner bool
 }
 
@@ -656,16 +657,14 @@ func decodeLegacyTop(b []byte, strict bool) (Batch, error) {
 		}
 		return bt, nil
 	}
-	relative := m.magic == 1
 	for i := range msgs {
-		if msgs[i].offset != int64(i) {
-			relative = false
-		}
 		if strict && i > 0 && msgs[i].offset <= msgs[i-1].offset {
 			return bt, fmt.Errorf("inner message %d: offset %d not above the previous offset %d", i, msgs[i].offset, msgs[i-1].offset)
 		}
 	}
-	bt.RelativeInner = relative
+	// A magic-1 wrapper whose first inner offset is 0 uses the KIP-31 relative
+	// layout (for a wrapper at the very start of a log both layouts coincide).
+	bt.RelativeInner = m.magic == 1 && msgs[0].offset == 0
 	// KIP-31: absolute = wrapper offset - last inner offset + inner offset; if
 	// that base is negative the inner offsets are taken as they are (what
 	// Kafka's AbstractLegacyRecordBatch does).
@@ -764,7 +763,9 @@ func encodeLegacy(b Batch, o EncodeOpts) ([]byte, []LenField, error) {
 	for i, r := range b.Records {
 		off := r.Offset
 		if b.RelativeInner && b.Magic == 1 {
-			off = int64(i)
+			// KIP-31: relative to the first inner message; 0..n-1 for consecutive
+			// records, with gaps where a compacted wrapper lost messages.
+			off = r.Offset - b.Records[0].Offset
 		}
 		inner = appendLegacyMsg(inner, nil, i, b.Magic, 0, off, ts(r), r.Key, r.Value)
 		if ts(r) > maxTS {
